@@ -53,8 +53,8 @@ Definition gmtime (t : Z) : tm :=
   mkTm (y - 1900) (m - 1) d (rem / 3600) ((rem mod 3600) / 60) (rem mod 60) ((4 + days) mod 7).
 
 (* timegm on a struct tm whose tm_mon is 0..11 (tmSaneValues guarantees it); tm_mday,
-   tm_hour, tm_min, tm_sec enter linearly, which is how out-of-range days such as
-   "31 Feb" are normalised into the following month. *)
+   tm_hour, tm_min, tm_sec enter linearly (glibc normalises out-of-range days such as
+   "31 Feb" into the following month; tmSaneValues now rejects them beforehand). *)
 Definition timegm (g : tm) : Z :=
   days_from_civil (tm_year g + 1900) (tm_mon g + 1) (tm_mday g) * 86400
   + tm_hour g * 3600 + tm_min g * 60 + tm_sec g.
@@ -148,9 +148,20 @@ Definition make_month (s : bytes) : Z :=
 
 Definition in_range (lo hi v : Z) : bool := (lo <=? v) && (v <=? hi).
 
+(* static const int monthDays[12] of tmSaneValues *)
+Definition month_days : list Z := [31; 29; 31; 30; 31; 30; 31; 31; 30; 31; 30; 31].
+Definition nth_z (l : list Z) (i : Z) : Z := match nthN (Z.to_N i) l with Some v => v | None => 0 end.
+
+(* the leap-year test of tmSaneValues on `long year`; C's % truncates towards zero = Z.rem:
+   !(year % 4 != 0 || (year % 100 == 0 && year % 400 != 0)) *)
+Definition c_leap (year : Z) : bool :=
+  negb (negb (Z.rem year 4 =? 0) || ((Z.rem year 100 =? 0) && negb (Z.rem year 400 =? 0))).
+
 Definition tm_sane (g : tm) : bool :=
   in_range 0 59 (tm_sec g) && in_range 0 59 (tm_min g) && in_range 0 23 (tm_hour g) &&
-  in_range 1 31 (tm_mday g) && in_range 0 11 (tm_mon g).
+  in_range 1 31 (tm_mday g) && in_range 0 11 (tm_mon g) &&
+  (tm_mday g <=? nth_z month_days (tm_mon g)) &&
+  negb ((tm_mon g =? 1) && (tm_mday g =? 29) && negb (c_leap (1900 + tm_year g))).
 
 (* ------------------------------------------------------------------ *)
 (* parse_date_elements: None = nullptr *)
@@ -361,11 +372,9 @@ Definition denoted_time (y m d hh mm ss : Z) : option Z :=
   else None.
 
 (* what the parser answers on a string of one of the three forms (theorems C35_*_answer):
-   it accepts iff day is 1..31 and the time of day is in range -- the day is NOT compared with
-   the length of the month -- and the accepted value is linear in the day *)
+   the denoted time when the fields denote one, otherwise the error value *)
 Definition form_answer (y m d hh mm ss : Z) : Z :=
-  if in_range 1 31 d && in_range 0 23 hh && in_range 0 59 mm && in_range 0 59 ss
-  then days_from_civil y m d * 86400 + hh * 3600 + mm * 60 + ss else -1.
+  match denoted_time y m d hh mm ss with Some t => t | None => -1 end.
 
 (* the century window the code applies to a two-digit year *)
 Definition yy_year (yy : Z) : Z := if yy <? 70 then 2000 + yy else 1900 + yy.
